@@ -4,7 +4,8 @@
     operations ([apply_op]) are the ones the correspondence check compares with
     the real [BackendMap] on every run. *)
 From Coq Require Import List Arith ZArith NArith Bool Lia.
-From SV Require Import C12.Model C12.Proofs.
+From Coq Require Import Znumtheory.
+From SV Require Import C12.Model C12.Proofs C12.Maglev.
 Import ListNotations.
 Open Scope N_scope.
 
@@ -71,18 +72,48 @@ Theorem affinity_stable :
     fst (lb_next s p (Some k) cands) = p.
 Proof. exact affinity_stable_lemma. Qed.
 
-(** 5. Maglev table.  Full statement (design): after [rebuild] on a non-empty
-    set with a prime size, [length table = size], *every* slot is filled with an
-    index [< length addrs], and the population loop ends within its fuel.
-    Proved here: the size is kept, the table is empty or exactly [size] long,
-    [addrs] are exactly the addresses of the set just passed in (a removed
-    address is gone after the rebuild that [remove_backend] triggers), every
-    filled slot indexes [addrs] in range, and the lookup only ever returns one
-    of the candidates it was handed.  Missing for the full statement: that no
-    slot stays unfilled (termination of the population loop within [m] passes,
-    which needs [skip] coprime with the prime [m]); an unfilled slot is skipped
-    by the lookup, so eligibility does not depend on it. *)
-Theorem maglev_table_total_partial :
+(** 5. Maglev table.  After [rebuild] on a non-empty set with a prime table
+    size (weights clamped to >= 1, as [backend_weight] does), the size is kept,
+    the captured addresses are exactly those of the set just passed in (so an
+    address removed by [remove_backend], which rebuilds, is gone), the table is
+    exactly [size] long and *every* slot holds an index into the captured
+    addresses: the population loop terminates within its fuel of [m] passes —
+    each [skip] lies in [1, m-1], is coprime with the prime [m], so a backend's
+    permutation reaches every residue and its search for a free slot succeeds
+    whenever one exists.  The lookup therefore never indexes out of range and
+    only ever returns one of the candidates it was handed. *)
+Theorem maglev_table_total :
+  forall hashes size aw,
+    aw <> [] -> prime (Z.of_N size) -> Forall (fun e => 1 <= snd e) aw ->
+    let mg := maglev_rebuild hashes size aw in
+    m_size mg = size /\ m_addrs mg = map fst aw /\
+    length (m_table mg) = N.to_nat size /\
+    Forall (fun e => exists i, e = Some i /\ (i < length aw)%nat) (m_table mg).
+Proof. exact maglev_rebuild_total. Qed.
+
+(** as the model calls it (on add / remove / policy change), with the
+    production table size *)
+Theorem maglev_table_total_production :
+  forall (s : state) (l : list nat),
+    l <> [] ->
+    let mg := maglev_rebuild (s_hashes s) 65537 (addr_weights (s_heap s) l) in
+    m_addrs mg = map (fun h => b_addr (hget (s_heap s) h)) l /\
+    length (m_table mg) = N.to_nat 65537 /\
+    Forall (fun e => exists i, e = Some i /\ (i < length l)%nat) (m_table mg).
+Proof.
+  intros s l Hl.
+  destruct (maglev_rebuild_total (s_hashes s) 65537 (addr_weights (s_heap s) l)) as (_ & A & B & C).
+  - unfold addr_weights. destruct l; [congruence|discriminate].
+  - exact prime_65537.
+  - apply addr_weights_pos.
+  - cbn zeta. split; [|split].
+    + rewrite A. unfold addr_weights. rewrite map_map. reflexivity.
+    + rewrite B. reflexivity.
+    + unfold addr_weights in C. rewrite map_length in C. exact C.
+Qed.
+
+(** for any size, prime or not: whatever is filled is in range *)
+Theorem maglev_table_valid_any_size :
   forall hashes size aw,
     let mg := maglev_rebuild hashes size aw in
     m_size mg = size /\
@@ -192,3 +223,9 @@ Example backoff_window_nonvacuous :
   can_open 12 (set_retry b (retry_fail (b_retry b) 10 3)) = false /\
   can_open 13 (set_retry b (retry_fail (b_retry b) 10 3)) = true.
 Proof. vm_compute. repeat split. Qed.
+
+Example maglev_table_total_nonvacuous :
+  prime (Z.of_N 7) /\
+  m_table (maglev_rebuild [(0, (3, 5)); (1, (4, 9)); (2, (6, 2))] 7 [(0, 100); (1, 100); (2, 5)])
+  = [Some 0; Some 1; Some 0; Some 0; Some 1; Some 1; Some 0]%nat.
+Proof. split; [apply prime_by_trial; [lia|vm_compute; reflexivity]|vm_compute; reflexivity]. Qed.
